@@ -109,18 +109,22 @@ Definition change_is (k c : N) : bool := N.eqb k c || negb (N.eqb (N.land k c) 0
 
 Definition new_prefix : str := [110; 101; 119; 95]%N.   (* "new_" *)
 
-(** sql/sqlite/migrate.go: alterable.  [DropIndex]: the index behind an inline UNIQUE constraint
-    (a sqlite_autoindex index) cannot be dropped, the table is rebuilt (fix "sqlite planner rebuilds the table when
-    the dropped index backs an inline UNIQUE constraint"; before it every DropIndex was alterable) *)
-Definition sqlite_autoindex : str :=
-  [115;113;108;105;116;101;95;97;117;116;111;105;110;100;101;120]%N. (* "sqlite_autoindex" *)
+Definition sqlite_autoindex : str :=     (* "sqlite_autoindex" *)
+  [115; 113; 108; 105; 116; 101; 95; 97; 117; 116; 111; 105; 110; 100; 101; 120]%N.
+
+(** sql/sqlite/migrate.go: alterable *)
 Fixpoint alterable (cs : list tchange) : bool :=
   match cs with
   | [] => true
   | c :: cs' =>
     match c with
     | RenameColumn _ _ | RenameIndex _ _ | AddIndex _ => alterable cs'
-    | DropIndex i => match has_prefix sqlite_autoindex i with Some _ => false | None => alterable cs' end
+    | DropIndex i =>
+        (* an index that backs an inline UNIQUE constraint cannot be dropped with DROP INDEX *)
+        match has_prefix sqlite_autoindex i with
+        | Some _ => false
+        | None => alterable cs'
+        end
     | AddColumn c0 =>
         if rc_hasidx c0 || rc_hasfk c0 then false
         else match rc_dkind c0 with
@@ -283,7 +287,8 @@ Record db := mkDb {
 
 Inductive eerr :=
 | ENoSuchTable | EExists | ENoSuchColumn | EDupColumn | ENotNull | EAddNotNull
-| EArity | EGenerated | EFK | EFuel.
+| EArity | EGenerated | EFK | EFuel
+| ELocked.     (* an injected fault: the statement fails with "database is locked" *)
 Inductive eres (A : Type) := EOk (a : A) | EErr (e : eerr).
 Arguments EOk {A} a. Arguments EErr {A} e.
 
@@ -615,6 +620,83 @@ Definition schema_apply (mode : txmode) (d : db) (cs : list schange) : option (d
         | EOk d' => Some (close_tx (d_fk d) (d_tables d'), None)
         | EErr e => Some (close_tx (d_fk d) (d_tables d), Some e)      (* rollback *)
         end
+    end
+  end.
+
+(** *** faults: one statement of the run fails with "database is locked" (SQLITE_BUSY) *)
+Inductive fault :=
+| FNone
+| FQueryFK        (* OpenTx: PRAGMA foreign_keys (the query) *)
+| FSetFKOff       (* OpenTx: PRAGMA foreign_keys = off, before BEGIN; only issued when enforcement is on *)
+| FBegin          (* OpenTx: db.BeginTx *)
+| FCheckBefore    (* CommitFunc: PRAGMA foreign_key_check before the plan; only when enforcement was on *)
+| FStmt (k : nat) (* the k-th statement of the plan (0-based) *)
+| FCheckAfter     (* commit closure: PRAGMA foreign_key_check after the plan; only when enforcement was on *)
+| FCommit         (* tx.Commit *)
+| FRestoreFK.     (* enableFK: PRAGMA foreign_keys = on after COMMIT; only when enforcement was on *)
+
+(** [run] with the k-th statement failing *)
+Fixpoint run_f (d : db) (l : list stmt) (k : option nat) : db * option eerr :=
+  match l with
+  | [] => (d, None)
+  | s :: l' =>
+    match k with
+    | Some O => (d, Some ELocked)
+    | _ =>
+      match exec d s with
+      | EErr e => (d, Some e)
+      | EOk d' => run_f d' l' (match k with Some (S j) => Some j | _ => None end)
+      end
+    end
+  end.
+
+Definition stmt_fault (f : fault) : option nat := match f with FStmt k => Some k | _ => None end.
+
+(** sql/sqlite/driver.go: OpenTx, step by step.  [EErr]: OpenTx returns an error and *no
+    statement of the plan runs*; the state returned with it is what the connection is left with
+    (the tables are those of [d] in every case). *)
+Definition OpenTx_f (f : fault) (d : db) : db * option eerr :=
+  match f with
+  | FQueryFK => (d, Some ELocked)                       (* "querying 'foreign_keys' pragma" *)
+  | _ =>
+    if d_fk d then
+      match f with
+      | FSetFKOff => (d, Some ELocked)                  (* "set 'foreign_keys = off'": enforcement still on, no BEGIN *)
+      | FBegin => (mkDb (d_tables d) false false, Some ELocked)          (* pragma stays off (leak) *)
+      | FCheckBefore => (mkDb (d_tables d) false true, Some ELocked)     (* transaction stays open (leak) *)
+      | _ => (mkDb (d_tables d) false true, None)
+      end
+    else
+      match f with
+      | FBegin => (d, Some ELocked)
+      | _ => (mkDb (d_tables d) false true, None)
+      end
+  end.
+
+(** cmdapi.applyChanges with one fault.  With [FNone] this is [schema_apply]. *)
+Definition schema_apply_f (mode : txmode) (f : fault) (d : db) (cs : list schange) : option (db * option eerr) :=
+  match PlanChanges cs with
+  | PErr _ => None
+  | POk p =>
+    match mode with
+    | TxNone => Some (run_f d p (stmt_fault f))
+    | TxFile =>
+      match OpenTx_f f d with
+      | (d0, Some e) => Some (d0, Some e)
+      | (d0, None) =>
+        match run_f d0 p (stmt_fault f) with
+        | (_, Some e) => Some (close_tx (d_fk d) (d_tables d), Some e)          (* tx.Rollback, enableFK *)
+        | (d1, None) =>
+          match f with
+          | FCheckAfter => if d_fk d then Some (close_tx (d_fk d) (d_tables d), Some ELocked)   (* rollback *)
+                           else Some (close_tx (d_fk d) (d_tables d1), None)
+          | FCommit => Some (close_tx (d_fk d) (d_tables d), Some ELocked)       (* not committed *)
+          | FRestoreFK => if d_fk d then Some (mkDb (d_tables d1) false false, Some ELocked)   (* committed *)
+                          else Some (close_tx (d_fk d) (d_tables d1), None)
+          | _ => Some (close_tx (d_fk d) (d_tables d1), None)
+          end
+        end
+      end
     end
   end.
 
